@@ -75,6 +75,10 @@ Definition wf_stype (st : stype) : bool :=
          && is_none (fa_total_digits f) && is_none (fa_fraction_digits f)
      end.
 
+(** str(Decimal) has no exponent: exponent <= 0 and adjusted exponent >= -6 *)
+Definition dec_plain_region (d : decimal) : bool :=
+  (d_exp d <=? 0) && (-6 <? d_exp d + len (str_nat (d_coeff d))).
+
 Section Spec.
   Variable pat : text -> option re.
   Variable olex : okind -> text -> option Z.
